@@ -68,3 +68,36 @@ func init() {
 		verifText = verifC03Load(verifSrc, verifBool("td"), verifBool("cd"))
 	}
 }
+
+// verifH_C03_depth_guard (shape L, one inductive step): the recursive descent re-enters parser.Expression for every
+// level of nesting (Statement, Block and every Nud/Led recurse through it) and Expression counts its active frames in
+// parser.Depth.  From an ARBITRARY depth d (symbolic), parsing one more parenthesised operand must either come back
+// with the counter restored to d or refuse with a parse error — and it must refuse once d is beyond the bound
+// (cfg c03_depth_bound), otherwise input nesting alone decides how much of the host's stack is used (a fatal stack
+// overflow cannot be recovered by Eval).
+func verifH_C03_depth_guard() {
+	d := int(verifInt32("d"))
+	verifAssume(d >= 0)
+	srcs := []string{"(1)", "-(1)", "x[0]", "f(1)", "[]int{1}"}
+	src := srcs[verifChoice("form", len(srcs))]
+	toks, err := tokenize("main.go", src)
+	if err != nil {
+		verifAssert(false, "C03/depth-guard/tokenize")
+		return
+	}
+	p := &parser{Tokens: toks, Depth: d}
+	p.Next()
+	refused := verifCatch(func() { p.Expression(0) })
+	if !refused {
+		verifAssert(p.Depth == d, "C03/depth-guard/counter-restored")
+	}
+	if d >= verifCfg("c03_depth_bound", 4000000) {
+		verifAssert(refused, "C03/depth-guard/recursion-refused-beyond-the-bound")
+	} else if d < 1000 {
+		verifAssert(!refused, "C03/depth-guard/ordinary-nesting-accepted")
+	}
+}
+
+func init() {
+	verifHarnesses["verifH_C03_depth_guard"] = verifH_C03_depth_guard
+}
